@@ -509,8 +509,8 @@ func b2i(b bool) int {
 
 func errClass(s string) string {
 	f := strings.Fields(s)
-	if len(f) > 3 {
-		f = f[:3]
+	if len(f) > 5 {
+		f = f[:5]
 	}
 	for i, w := range f {
 		if len(w) > 12 {
